@@ -216,10 +216,10 @@ def c06(c):
                    "float ranges are limited to 1e+-12 so that 1/area^2 stays representable; double/long double use 1e+-30",
                    "UBSan float-cast-overflow (gcc and clang builds) watches the index computation"])
 def c11(c):
-    c.std([dict(src='c11_bins.cpp', build='asan', shards={'quick': 5, 'thorough': 5}),
-           dict(src='c11_bins.cpp', build='clang', shards={'quick': 2, 'thorough': 5})])
+    c.std([dict(src='c11_bins.cpp', build='asan', shards={'quick': 5, 'thorough': 5}, extra_inc=SHIM, libs=['-pthread']),
+           dict(src='c11_bins.cpp', build='clang', shards={'quick': 2, 'thorough': 5}, extra_inc=SHIM, libs=['-pthread'])])
     for k in ('placements_checked', 'placements_at_an_edge(ambiguous)', 'placements_outside_or_nonfinite', 'bins_checked', 'differential_bins_checked',
-              'runs_plain', 'runs_vegas', 'runs_multi_channel'):
+              'runs_plain', 'runs_vegas', 'runs_multi_channel', 'runs_through_mpi_shim'):
         c.require(k)
 
 
